@@ -465,6 +465,14 @@ impl Report {
         });
         let stop = AtomicBool::new(false);
         let failure: Mutex<Option<(usize, Value, String)>> = Mutex::new(None);
+        // Quick-tier calibration (measured on an idle 16-core machine with tmpfs scratch, so that
+        // each quick check does 20-60 s of fixed work): the per-property counts written in the
+        // property modules were chosen on a heavily loaded machine; this table scales them.
+        let cases = if self.tier == Tier::Quick {
+            ((u64::from(cases) * u64::from(quick_scale_tenths(self.id)) / 10).max(1)) as u32
+        } else {
+            cases
+        };
         // Development aid only (never set by registered commands): scale case counts.
         let cases = match std::env::var("JJVERIF_DEV_CASES_PCT").ok().and_then(|v| v.parse::<u64>().ok()) {
             Some(pct) => ((u64::from(cases) * pct / 100).max(1)) as u32,
@@ -829,6 +837,24 @@ impl Report {
             wall
         );
         if self.violations.is_empty() { 0 } else { 1 }
+    }
+}
+
+/// Quick-tier multiplier (in tenths) applied to the case counts of `Report::prop`.
+fn quick_scale_tenths(id: &str) -> u32 {
+    match id {
+        "C01" | "C02" => 50,
+        "C03" | "C04" | "C06" | "C08" | "C16" | "C19" | "C21" | "C26" | "C29" | "C31" | "C33" | "C34"
+        | "C35" | "C39" => 80,
+        "C05" | "C18" | "C20" => 100,
+        "C07" | "C11" | "C17" | "C22" | "C24" | "C28" | "C32" | "C38" | "C46" => 60,
+        "C25" | "C30" | "C44" | "C14" => 50,
+        "C10" | "C27" | "C37" | "C09" | "C41" => 40,
+        "C12" | "C13" | "C23" | "C36" | "C43" => 30,
+        "C40" => 60,
+        "C42" => 20,
+        "C45" => 15,
+        _ => 10,
     }
 }
 
